@@ -1377,6 +1377,10 @@ func (val Value) LessThan(other Value) Value {
 		return (*shortCircuit).RefineNotNull()
 	}
 
+	if rawNumberEqual(val.v.(*big.Float), other.v.(*big.Float)) {
+		// Numbers that Equals considers equal are never also less or greater.
+		return False
+	}
 	return BoolVal(val.v.(*big.Float).Cmp(other.v.(*big.Float)) < 0)
 }
 
@@ -1416,6 +1420,10 @@ func (val Value) GreaterThan(other Value) Value {
 		return (*shortCircuit).RefineNotNull()
 	}
 
+	if rawNumberEqual(val.v.(*big.Float), other.v.(*big.Float)) {
+		// Numbers that Equals considers equal are never also less or greater.
+		return False
+	}
 	return BoolVal(val.v.(*big.Float).Cmp(other.v.(*big.Float)) > 0)
 }
 
